@@ -94,9 +94,11 @@ LEVEL = {
         text="Partial. Theorems: repaired lsp2lpc ignores the gain element (the pinned code used it as a frequency: fix 3dba546); gc2gc with equal gamma truncates; "
              "ignorm inverts gnorm; MGLSA is the stage-fold cascade; gamma = -1/stage; lsp2lpc returns exactly the coefficients of (P(z)+Q(z))/2 with P, Q the products of the LSP "
              "quadratic factors times (1 -/+ z^-1) (lsp2lpc_poly, every order, odd and even); well-separated frequencies pass the stability check unchanged; the cascade of stage sections is linear and time-invariant, output = excitation convolved "
-             "with the pulse response. The magnitude formula K/|A|^s (0.001 neper) and decay are decided on every run "
+             "with the pulse response; for alpha = 0 the formula itself is an identity of the code's arithmetic: the coefficient chain run on every frame "
+             "collapses to [K, a_1..a_m] with a the coefficients of (P+Q)/2, and the cascade computes the all-pole difference equation of 1/A(z)^stage "
+             "(coefficients_are_gain_and_lpc, cascade_is_all_pole; the powf laws used are hypotheses). The magnitude formula K/|A|^s (0.001 neper) and decay are decided on every run "
              "by DFT of the implementation's pulse response against A(z) built by polynomial multiplication; model bit-identical to the implementation.",
-        note="Trusted: as C06; the link from (P+Q)/2 to the magnitude response K/|A|^s involves exp/cos of real numbers and is checked numerically (DFT), not proved.",
+        note="Trusted: as C06; for alpha != 0 (warped delay line) and for the passage from the difference equation to the magnitude |H(e^jw)| the check is numerical (DFT), not a theorem.",
     ),
     "C14": dict(
         text="Theorems: the post-filter's coefficient law (orders >= 2 times 1+beta, order 1 unchanged, order 0 shifted by half the log energy ratio minus "
